@@ -1,0 +1,13 @@
+//go:build verif
+
+package timebase
+
+// The registered local clock is reached through an atomic.Value; its readings are arbitrary (assumed contracts,
+// the bodies are not verified: they only forward to the registered SystemClock).
+
+//@ func Now
+//@   trusted
+//@   ensures sane: 0 <= result.Unix() && result.Unix() <= 8589934592
+
+//@ func Epoch
+//@   trusted
